@@ -207,23 +207,27 @@ func (server *Server) open() error {
 
 // close closes a listening socket.
 func (server *Server) close() error {
+	// Every listener is closed even if another one could not be closed, and a listener which its
+	// accept loop has already closed (the loop ends on an Accept error) is not an error.
+	var errs error
+
 	if server.portListener != nil {
 		err := server.portListener.Close()
-		if err != nil {
-			return err
+		if err != nil && !errors.Is(err, net.ErrClosed) {
+			errs = errors.Join(errs, err)
 		}
 		server.portListener = nil
 	}
 
 	if server.tlsPortListener != nil {
 		err := server.tlsPortListener.Close()
-		if err != nil {
-			return err
+		if err != nil && !errors.Is(err, net.ErrClosed) {
+			errs = errors.Join(errs, err)
 		}
 		server.tlsPortListener = nil
 	}
 
-	return nil
+	return errs
 }
 
 // serve handles client connections.
